@@ -49,10 +49,12 @@ ChkExtra(lv, dyn) ==
     /\ \A i \in 1..Len(subs[lv]) : i <= Len(dyn) =>
           Chk((IF dyn[i] > out'.calls[lv][i] THEN "dup-dispatch/" ELSE "missing-dispatch/") \o lv \o "-extra-" \o subs[lv][i].k,
               dyn[i] = out'.calls[lv][i])
-ChkDeliver(dl, exp) == /\ Chk("subscriber called for another packet", dl.other = 0)
+ChkDeliver2(dl, exp, wild) ==
+                       /\ Chk("subscriber called for another packet", dl.other = 0)
                        /\ ChkExtra("sess", dl.dyn.sess) /\ ChkExtra("reg", dl.dyn.reg)
-                       /\ ChkDl("sess", dl.sess, exp) /\ ChkDl("sessAll", dl.sessAll, exp)
-                       /\ ChkDl("reg", dl.reg, exp) /\ ChkDl("regAll", dl.regAll, exp)
+                       /\ ChkDl("sess", dl.sess, exp) /\ ChkDl("sessAll", dl.sessAll, wild)
+                       /\ ChkDl("reg", dl.reg, exp) /\ ChkDl("regAll", dl.regAll, wild)
+ChkDeliver(dl, exp) == ChkDeliver2(dl, exp, exp)
 ChkIds(tx) == Chk("packet IDs strictly increasing", FreshIncreasing(tx))
 \* clauses common to every step: nothing escapes, datagrams go to the peer
 ChkStep == /\ Chk("exception escaped", ~Rec.raised)
@@ -63,7 +65,7 @@ TReset == /\ IsEvent("Reset") /\ tid' = Rec.tid
           /\ seen' = <<>> /\ evN' = <<>> /\ rR' = <<>> /\ aR' = <<>> /\ dR' = <<>> /\ rU' = <<>> /\ dU' = <<>>
           /\ pend' = {} /\ done' = {} /\ failed' = {} /\ relIssued' = {} /\ ackedSince' = {} /\ xmits' = {}
           /\ ids' = <<>> /\ lastId' = -1 /\ subs' = [lv \in Levels |-> <<>>]
-          /\ alive' = "pending" /\ abandoned' = {} /\ epoch' = 0
+          /\ alive' = "pending" /\ abandoned' = {} /\ epoch' = 0 /\ floor' = 0 /\ pongs' = 0 /\ openSeen' = {}
           /\ out' = [NoOut EXCEPT !.calls = [lv \in Levels |-> <<>>]]
 
 TRecv == /\ IsEvent("Recv") /\ UNCHANGED tid
@@ -111,7 +113,15 @@ TAlive == /\ IsEvent("Alive") /\ UNCHANGED tid
 TDisconnect == /\ IsEvent("Disconnect") /\ UNCHANGED tid
                /\ Env("not dead", alive # "dead") /\ Disconnect
                /\ ChkStep /\ Chk("disconnect: nothing emitted", Rec.tx = <<>>) /\ ChkFut(Rec.fut)
-TNext == TAlive \/ TDisconnect \/ TReset \/ TRecv \/ TStray \/ TSendRel \/ TSendUnrel \/ TTick \/ TSub
+\* {"ev":"Ping","oldest":n,"pong_ok":bool,tx,dl,fut}: StartPingCheck(OldestUnacked=n); pong_ok: the one datagram emitted is a
+\* CompletePingCheck echoing the PingID
+TPing == /\ IsEvent("Ping") /\ UNCHANGED tid
+         /\ Ping(Rec.oldest, IdParam(Rec.tx))
+         /\ ChkStep /\ ChkIds(Rec.tx)
+         /\ Chk("ping answered with one CompletePingCheck", TxSet(Rec.tx) = out'.tx /\ Len(Rec.tx) = 1 /\ Rec.pong_ok)
+         /\ ChkDeliver2(Rec.dl, 0, 1)
+         /\ ChkFut(Rec.fut)
+TNext == TPing \/ TAlive \/ TDisconnect \/ TReset \/ TRecv \/ TStray \/ TSendRel \/ TSendUnrel \/ TTick \/ TSub
 TraceSpec == TInit /\ [][TNext]_tvars
 TraceAccepted == PrintT("TRACE_REACHED " \o ToString(TLCGet("stats").diameter - 1) \o " OF " \o ToString(Len(TraceLog)))
 ====
